@@ -3,9 +3,9 @@ CONSTANTS
   MaxTok = 180
   MaxDecls = 4
   MinDecls = 3
-  TypeNames <- TN
-  ProcNames <- PN
-  VarNames <- VN
+  TypeNames <- TNc
+  ProcNames <- PNc
+  VarNames <- VNc
   Faults <- NoFaults
   OnlyFaulty = FALSE
   Grow = 110
